@@ -385,6 +385,8 @@ func classifyAck(err error) string {
 		return "issuer" // whatever made the upload fail, a cancelled request included
 	case errors.Is(err, context.Canceled):
 		return "canceled"
+	case errors.As(err, new(ctlog.SunsetLogError)):
+		return "sunset"
 	}
 	return "nonfatal"
 }
